@@ -206,9 +206,11 @@ class TIBaseBackend: # ToDo: translate this numpy code into tensornetwork
             o_2 = c_real * self._ops[1] - 1j * c_imag * self._ops[2]
             # shape ( e, n, s)
             tensor = np.dot(self._initial_data, self._prop.T * exp(o_1 * o_2))
+            # evaluate the (user supplied) correlations before recording
+            influence_tensor = self._influence_tensor(0)
             self.data.append(np.dot(tensor, self._prop.T))
             # contains whole timestep freeprop!
-            tensor = np.dot(self._influence_tensor(0), tensor.T)
+            tensor = np.dot(influence_tensor, tensor.T)
             tensor = swapaxes(tensor.sum(0), 0, 2)
             self._mps = [tensor, self._cap]
             self.data.append(self.readout())
